@@ -318,10 +318,17 @@ class Program:
         out = {"__class__": type(obj).__qualname__}
         decl = self.decls[type(obj).__qualname__]
         for ins in X.flatten_own(decl.body):
-            if ins.tag == "field" and ins.name is not None:
-                out[ins.name] = self.to_model(getattr(obj, ins.name))
-            elif ins.tag == "array":
-                out[ins.name] = self.to_model(getattr(obj, ins.name))
+            if ins.tag in ("field", "array") and ins.name is not None:
+                v = getattr(obj, ins.name)
+                tref = X.resolve_type(self.spec, ins.type, ins.length if ins.tag == "field" and ins.type.split(":")[0] in ("string", "encoded_string") else None)
+                if tref.kind == "enum" and v is not None:
+                    # "unknown enum ordinals are preserved": as instances of the DECLARED enum type
+                    ec = self.enum_cls(tref.enum)
+                    bad = [x for x in (v if ins.tag == "array" else [v]) if not isinstance(x, ec)]
+                    if bad:
+                        out[ins.name] = f"<{type(bad[0]).__name__} instance {bad[0]!r} where an instance of {ec.__name__} is prescribed>"
+                        continue
+                out[ins.name] = self.to_model(v)
             elif ins.tag == "switch":
                 out[ins.field + "_data"] = self.to_model(getattr(obj, ins.field + "_data"))
         out["byte_size"] = obj.byte_size
